@@ -227,6 +227,7 @@ def run(prog: Program, ctx: Ctx) -> None:  # noqa: PLR0912,PLR0915
     ctx.ob("R5", key(xe, "result-stored"), len(store) == 1, "the expanded list replaces module.exports", where(xe))
 
     # ------------------------------------------------------------------ R6
-    from sa.importrules import import_rules
+    from sa.importrules import import_rules, importfrom_table
 
     import_rules(prog, ctx, "R6")
+    importfrom_table(prog, ctx, "R7")
